@@ -26,7 +26,7 @@ ASSUMPTIONS = [
     'work list, decides what a two-fragment template yields',
     'the step clock sees GenRxnNet.py and ReactionQuery.py only; RDKit is C++',
 ]
-SMALL = ['C', 'CC', 'C=C', 'CO']
+SMALL = ['C', 'CC', 'C=C', 'CO', 'C#C']
 LARGE = ['CCC', 'CCCC', 'CC(C)C', 'CC=C', 'CCO', 'COC', 'OCO', 'C=CC=C',
          'CC(C)O', 'OCCO']   # distinct molecules: seeds form a set
 
@@ -84,7 +84,11 @@ def check_case(case):
     'spell': [k per seed]}.  Returns (event, violations, info)."""
     from rdkit import Chem
     seeds = [spelled(s, k) for s, k in zip(case['seeds'], case['spell'])]
-    texts = [nm.RULES[r][case['form']] for r in case['rules']]
+    forms = case.get('forms') or [case.get('form', 'smarts')] * \
+        len(case['rules'])
+    texts = [nm.RULES[r][f] or nm.RULES[r]['ring' if f == 'smarts'
+                                        else 'smarts']
+             for r, f in zip(case['rules'], forms)]
     sc = [nm.mol_to_canon(Chem.MolFromSmiles(s)) for s in case['seeds']]
     ref = nm.closure(sc, case['rules'])
     viols = []
@@ -167,10 +171,13 @@ def gen_group(run_seed):
         if i > 0:
             rng.shuffle(rs)
             rng.shuffle(ss)
-        form = 'smarts'
-        if all(nm.RULES[r]['ring'] for r in rs) and rng.random() < 0.35:
-            form = 'ring'
-        cases.append({'seeds': ss, 'rules': rs, 'form': form,
+        # each rule as reaction SMARTS or as RING text (mixed lists are
+        # legal); one style per schedule is drawn, then perturbed per rule
+        p_ring = rng.choice([0.0, 0.0, 0.5, 1.0])
+        forms = ['ring' if (nm.RULES[r]['smarts'] is None or
+                            rng.random() < p_ring) else 'smarts'
+                 for r in rs]
+        cases.append({'seeds': ss, 'rules': rs, 'forms': forms,
                       'spell': [0 if i == 0 else rng.randrange(1, 1000)
                                 for _ in ss]})
     return {'id': 'g%d' % run_seed, 'cases': cases}
@@ -190,10 +197,16 @@ def small_groups(tier):
                 cases = []
                 for perm in itertools.permutations(sub):
                     cases.append({'seeds': ss, 'rules': list(perm),
-                                  'form': 'smarts', 'spell': [0] * len(ss)})
+                                  'forms': ['smarts'] * len(perm),
+                                  'spell': [0] * len(ss)})
                 if len(ss) == 2:
                     cases.append({'seeds': ss[::-1], 'rules': list(sub),
-                                  'form': 'smarts', 'spell': [0, 0]})
+                                  'forms': ['smarts'] * len(sub),
+                                  'spell': [0, 0]})
+                # the same rules as RING text, once
+                cases.append({'seeds': ss, 'rules': list(sub),
+                              'forms': ['ring'] * len(sub),
+                              'spell': [0] * len(ss)})
                 groups.append({'id': 'x-%s-%s' % ('.'.join(ss), '+'.join(sub)),
                                'cases': cases})
     return groups
@@ -227,7 +240,7 @@ def execute_group(group):
         stats['max_closure'] = max(stats['max_closure'], info.get('n') or 0)
         if info.get('escalated'):
             stats['escalations'] += 1
-        if case['form'] == 'ring':
+        if 'ring' in (case.get('forms') or [case.get('form')]):
             stats['ring_rule_calls'] += 1
         log.add('call', i=ci, case=case, ev=ev)
         for v in vs:
